@@ -13,6 +13,7 @@ import Rare.Proofs.C15Starve
 import Rare.Proofs.C15Api
 import Rare.Proofs.C15Rename
 import Rare.Proofs.C15StatOpen
+import Rare.Proofs.C15Replace
 import Rare.Model.C15Wiring
 import Rare.Gen.C15
 /-!
@@ -37,7 +38,8 @@ Remove / Create of the followed name, after the operation, in order, without que
 Go scheduler is fair to the fsnotify goroutine and the reader (liveness statements are of the form
 "some run of kernel goroutine + reader reaches …" together with a measure that every such step
 decreases).  Out of the model: a writer that keeps appending to a file after it was unlinked or
-renamed away, a file renamed ONTO the followed path.  Rotation by rename (the followed file moved away) is
+renamed away.  A file renamed ONTO the followed path is a KNOWN FINDING for -F with the notify reader
+(section "a file renamed ONTO the followed path").  Rotation by rename (the followed file moved away) is
 in the model since the `fix:` commit 4cc14c1 (section "rotation by rename").  In-place truncation (copytruncate) is outside the property; what
 the readers do then is modelled by the extended systems of `Rare.Model.C15Trunc` and recorded in the
 section "in-place truncation" below.
@@ -1216,6 +1218,44 @@ theorem plain_rename_not_followed_counterexample :
     (.base (.readEmpty _ ⟨0, 0, 1⟩ rfl rfl rfl)))
     (.base (.noise _))) (.base (.dispatch _ .other [] rfl))
   exact ⟨_, hr, rfl, rfl, rfl, rfl, rfl, rfl, rfl, rfl⟩
+
+/-! ## a file renamed ONTO the followed path (atomic replace) – KNOWN FINDING -/
+
+/- Full statement (what the property asks of re-open follow, and what holds for removal + re-creation and for
+   rotation by rename – `reopen_eventually_opens_new`, `reopen_follows_after_rename`):
+     for every reachable state of the notify system with -F and every inode `j` at the path, some (every) run
+     of the fsnotify goroutine and the reader ends with `j` open.
+   It does NOT hold when the writer may also replace the file by a rename onto the path. -/
+
+/-- **reopen_follows_new_file_partial.**  The statement for the histories without an atomic replace (append,
+    remove, create, rename-away, other events): the file at the path is eventually open. -/
+theorem reopen_follows_new_file_partial (c0 : Option (List β)) (tail : Bool) {s : NSt β}
+    (hr : NReachR (srcN true) (ninit c0 tail) s) (j : Nat) (hp : s.fs.path = some j) :
+    ∃ s', NSysReach (srcN true) s s' ∧ onPath s' j :=
+  reopen_follows_after_rename c0 tail hr j hp
+
+/-- **reopen_follows_new_file_counterexample.**  With an atomic replace the statement fails: `[1]` delivered,
+    a new file `[2,3]` renamed onto the path (one `Create` event, no `Remove`): the write signal finds a file
+    open and does nothing; the reader ends up in its `select` with nothing pending, holding the unlinked file –
+    and NO run of goroutine and reader from there ever opens the file that is at the path. -/
+theorem reopen_follows_new_file_counterexample :
+    ∃ (s : NSt Nat) (j : Nat), NReachO (srcN true) (ninit (some [1]) false) s ∧ s.fs.path = some j ∧
+      s.fs.content j = [2, 3] ∧ s.delivered = [1] ∧
+      ∀ s', NSysReach (srcN true) s s' → ¬ onPath s' j := by
+  have hr : NReachO (srcN true) (ninit (some [(1 : Nat)]) false) _ :=
+    .step (.step (.step (.step (.step (.step
+    (.refl (s0 := ninit (some [(1 : Nat)]) false))
+    (.base (.readSome _ ⟨0, 0, 0⟩ 1 rfl rfl (by decide) (by decide))))
+    (.replace _ 0 [2, 3] rfl)) (.base (.dispatch _ .create [] rfl)))
+    (.base (.readEmpty _ ⟨0, 0, 1⟩ rfl rfl rfl))) (.base (.recvW _ rfl (by decide))))
+    (.base (.readEmpty _ ⟨0, 0, 1⟩ rfl rfl rfl))
+  refine ⟨_, 1, hr, rfl, rfl, rfl, ?_⟩
+  intro s' hs'
+  rw [quiet_stays ⟨rfl, rfl, rfl, rfl⟩ hs']
+  rintro ⟨x, hx, hino⟩
+  have hx' : some (⟨0, 0, 1⟩ : Handle) = some x := hx
+  cases hx'
+  cases hino
 
 /-! ## in-place truncation (copytruncate rotation) – outside the property, behaviour recorded -/
 
